@@ -17,7 +17,7 @@ BASE_INV = ["TypeOK", "Protocol", "ParamsOnlyInBatch", "ListOrder", "StopHonoure
 
 
 def mc(cfgs, maxinj=1, invariants=BASE_INV, export=True, liveness=False, timeout=900,
-       workers=16, simulate=None, depth=None, seed=None):
+       workers=16, simulate=None, depth=None, seed=None, export_sample=None):
     """cfgs: TLA+ text of a set of configurations, or a list of such texts (one shard each)."""
     inv = list(invariants) + (["MC_Export"] if export else [])
     shards = [cfgs] if isinstance(cfgs, str) else list(cfgs)
@@ -27,7 +27,7 @@ def mc(cfgs, maxinj=1, invariants=BASE_INV, export=True, liveness=False, timeout
                    spec="Spec" if liveness else None,
                    properties=["Terminates"] if liveness else (),
                    invariants=inv, extends_extra=["Json"], extra_text=EXPORT if export else "",
-                   workers=workers, timeout=timeout, simulate=simulate, depth=depth, seed=seed)
+                   workers=workers, timeout=timeout, simulate=simulate, depth=depth, seed=seed, export_sample=export_sample)
 
 
 def rec(**kw):
